@@ -247,6 +247,25 @@ def check_curved(name, acc):
     rr = outcome(lambda: p.reversed().area())
     if rr[0] != 'ok' or not abs(float(rr[1]) + float(exact)) <= 1e-11 * 64:
         acc.violation('area_transform', {'n': len(segs), 'shape': 'curved', 'transform': 'reversed'}, case, observed=rr, expected=-float(exact))
+    # the same after the path has answered other queries (whatever those cached must not leak into
+    # copies made afterwards, nor change the path's own answers)
+    xs = [complex(q).real for s_ in segs for q in s_.bpoints()]
+    ys = [complex(q).imag for s_ in segs for q in s_.bpoints()]
+    inside_guess = complex((min(xs) + max(xs)) / 2 + 0.0137, (min(ys) + max(ys)) / 2 - 0.0071)
+    outside = complex(min(xs) - 1.0, min(ys) - 1.37)
+    for q in (lambda: p.length(), lambda: p.bbox(), lambda: path_encloses_pt(inside_guess, outside, p),
+              lambda: path_encloses_pt(outside + 0.5, outside, p), lambda: p.point(0.3), lambda: [s_.poly() for s_ in p],
+              lambda: [s_.length() for s_ in p], lambda: p.d()):
+        outcome(q)
+    for tname, fn, want in (('area_again', lambda: p.area(), float(exact)),
+                            ('reversed_after_queries', lambda: p.reversed().area(), -float(exact)),
+                            ('reversed_twice_after_queries', lambda: p.reversed().reversed().area(), float(exact)),
+                            ('translated_after_queries', lambda: p.translated(2 - 1j).area(), float(exact)),
+                            ('segments_reversed_after_queries', lambda: Path(*[s_.reversed() for s_ in reversed(list(p))]).area(), -float(exact))):
+        rr = outcome(fn)
+        acc.case(dict(case, transform=tname), cls='area_transform/after_queries')
+        if rr[0] != 'ok' or not abs(float(rr[1]) - want) <= 1e-11 * 64 * max(1.0, abs(want)):
+            acc.violation('area_transform', {'n': len(segs), 'shape': 'curved', 'transform': tname}, dict(case, transform=tname), observed=rr, expected=want)
 
 
 def check_curved_enclosure(name, acc, only=None):
@@ -396,7 +415,7 @@ def run_shard(desc, tier, seed):
 
 def expected_classes(tier):
     return ['area/ccw', 'area/cw', 'area/zero_area', 'area/curved', 'area/ellipse', 'encloses/inside', 'encloses/outside',
-            'contained/nested', 'contained/disjoint', 'contained/crossing', 'curved_encloses/inside', 'curved_encloses/outside', 'area/arcs_N1', 'area/arcs_Nmany', 'area_transform/reversed', 'area_transform/scaled_neg']
+            'contained/nested', 'contained/disjoint', 'contained/crossing', 'curved_encloses/inside', 'curved_encloses/outside', 'area/arcs_N1', 'area/arcs_Nmany', 'area_transform/reversed', 'area_transform/scaled_neg', 'area_transform/after_queries']
 
 
 def space(tier, seed):
